@@ -208,3 +208,15 @@ CLAIMED.update({
          "note": STD_NOTE + ORDER_NOTE,
          "technique": "static analysis: order-type enumeration of extracted comparison regions (K4/K6), who-may-call/write (K2), must-pass-through ordering (K3), store pairing (K5), orientation table (K7)"},
 })
+CLAIMED.update({
+ "C02": {"level": "other",
+         "text": "Finite-state check of the event flag machine: each of the 16 functions that move an event between lists (event_queue_*, event_callback_activate/cancel, "
+                 "event_active[_later]_nolock_, event_del_nolock_, event_add_nolock_, event_remove_timer_nolock_) is evaluated from its extracted CFG on every consistent value of "
+                 "the six list-membership bits x internal x result word x interest kind x each possible result of the backend map / heap reservation (about 10^4 cases per "
+                 "configuration, calls between them resolved by evaluating the callee), and every outcome (flags', event_count', event_count_active', ev_res', return value) must "
+                 "equal the reference model of the documented state machine; each EVLIST_* bit and counter is written only by its owners (bit-level who-may-write over all units); "
+                 "event_pending is evaluated on all 1536 flag/interest/result/query combinations against the documented table incl. the reported expiry; flag words are only "
+                 "bit-tested. Declined: equality with the model over whole API histories with callbacks and loop iterations; event_base_assert_ok_ never failing.",
+         "note": STD_NOTE + ORDER_NOTE + " The flag domain is finite and enumerated completely; the reference model (engine/props/C02.py, m_* functions) is part of the trusted base.",
+         "technique": "static analysis: exhaustive abstract evaluation of extracted CFGs over the finite flag domain against a reference model (K6/K5), bit-level who-may-write (K2), contradiction rule on flag-word tests (K4)"},
+})
